@@ -8,6 +8,7 @@ import (
 	"encoding/base64"
 	"fmt"
 	"net"
+	"net/http"
 	"os"
 	"regexp"
 	"sort"
@@ -556,7 +557,20 @@ func (e *rtEnv) startProxy(cfg RTConfig) (*ProxyInst, error) {
 	for _, c := range cfg.Creds {
 		o.Credentials = append(o.Credentials, e.subst(c))
 	}
-	return StartProxy(o)
+	// every message this instance sends carries the instance's tag (also the CONNECTs its transport makes on its own):
+	// net/http completes dials - CONNECT included - in the background, and a loaded peer may log a message long after
+	// it was sent; what a peer logs is attributed by the tag, not by the time it is logged
+	tag := fmt.Sprintf("case-%d", caseSeq.Add(1))
+	o.ReqMods = append(o.ReqMods, forwarder.RequestModifierFunc(func(req *http.Request) error {
+		req.Header.Set("X-Case", tag)
+		return nil
+	}))
+	o.ConnectHeaders = []string{"X-Case: " + tag}
+	px, err := StartProxy(o)
+	if px != nil {
+		px.Tag = tag
+	}
+	return px, err
 }
 
 type rtObs struct {
@@ -682,6 +696,15 @@ func (e *rtEnv) rtExchange(px *ProxyInst, r RTReq, vid string) rtObs {
 			if rr.Msg == nil {
 				continue
 			}
+			if v := rr.Msg.First("X-Case"); v != "" && v != px.Tag {
+				st.Class("stray-message-of-another-proxy-instance")
+				continue
+			}
+			if v := rr.Msg.First("X-Vid"); v != "" && v != vid {
+				// a message that names another request (a late arrival from an earlier one): not this request's doing
+				st.Class("stray-message-of-another-request")
+				continue
+			}
 			o.newMsgs[n] = append(o.newMsgs[n], rr.Msg)
 			if rr.Msg.First("X-Vid") == vid {
 				o.hopMsgs[n] = append(o.hopMsgs[n], rr.Msg)
@@ -747,8 +770,19 @@ func judgeRoute(e *rtEnv, cfg RTConfig, r RTReq, i int, x route, o rtObs) (fails
 		return "C05:" + r.Kind + ":" + clause
 	}
 	desc := fmt.Sprintf("request %d (%s %s to host %s) under %+v: expected route %+v; observed status=%d err=%v served-by=%q contacted=%v dials=%v", i, r.Kind, r.Method, r.Host, cfg, x, o.status, o.err, o.servedBy, o.changed, o.dials)
+	// counters of a peer also move when it logs, late, what another proxy instance or an earlier request sent it
+	// (background dials of net/http, a loaded machine): unexpected activity counts when the peer holds a message
+	// of this instance and request (tag / X-Vid); the SOCKS peer, which sees no HTTP, is taken at its counters
+	var attributable []string
+	for _, n := range o.changed {
+		if len(o.newMsgs[n]) > 0 || n == "S" {
+			attributable = append(attributable, n)
+		} else {
+			st.Class("activity-not-attributable")
+		}
+	}
 	if x.fail {
-		if len(o.changed) > 0 || len(o.dials) > 0 {
+		if len(attributable) > 0 || len(o.dials) > 0 {
 			fails = append(fails, vstat.Failf(key("failed-route-contact"), "the route cannot be determined (%s) but somebody was contacted: %s", x.why, desc))
 		}
 		if o.status/100 != 5 {
@@ -765,7 +799,7 @@ func judgeRoute(e *rtEnv, cfg RTConfig, r RTReq, i int, x route, o rtObs) (fails
 	if x.peer != "" && x.peer != origin.Name && (r.Kind == "connect" || r.Kind == "mitm" || x.hopKind == "socks5") {
 		allowed[origin.Name] = true
 	}
-	for _, n := range o.changed {
+	for _, n := range attributable {
 		if !allowed[n] {
 			fails = append(fails, vstat.Failf(key("wrong-party-contacted"), "peer %s was contacted: %s", n, desc))
 		}
